@@ -62,12 +62,18 @@ mod verif_value_laws {
             _ => OrderableValue::Timestamp(Timestamp::from_micros(kani::any())),
         }
     }
-    fn check_pair(k1: u8, k2: u8) {
+    // part 0: antisymmetry / totality      part 1: cmp == Equal  <=>  ==      part 2: == symmetric, partial_cmp agrees
+    // (two harnesses per pair: the exact Int64/Float64 comparison makes the combined formula slow - measured 500 s vs 2 x 40 s)
+    fn check_pair(part: u8, k1: u8, k2: u8) {
         let (a, b) = (ov(k1), ov(k2));
-        assert!(a.cmp(&b) == b.cmp(&a).reverse());
-        assert!((a.cmp(&b) == Ordering::Equal) == (a == b));
-        assert!((a == b) == (b == a));
-        assert!(a.partial_cmp(&b) == Some(a.cmp(&b)));
+        if part == 0 {
+            assert!(a.cmp(&b) == b.cmp(&a).reverse());
+        } else if part == 1 {
+            assert!((a.cmp(&b) == Ordering::Equal) == (a == b));
+        } else {
+            assert!((a == b) == (b == a));
+            assert!(a.partial_cmp(&b) == Some(a.cmp(&b)));
+        }
         kani::cover!(true);
     }
     fn check_pair_hash(k1: u8, k2: u8) {
@@ -83,7 +89,7 @@ mod verif_value_laws {
         if a == b && b == c { assert!(a == c); }
         kani::cover!(true);
     }
-    macro_rules! pair { ($n:ident, $a:expr, $b:expr) => { #[kani::proof] fn $n() { check_pair($a, $b); } }; }
+    macro_rules! pair { ($n:ident, $p:expr, $a:expr, $b:expr) => { #[kani::proof] fn $n() { check_pair($p, $a, $b); } }; }
     macro_rules! pairh { ($n:ident, $a:expr, $b:expr) => { #[kani::proof] #[kani::unwind(42)] fn $n() { check_pair_hash($a, $b); } }; }
     macro_rules! triple { ($n:ident, $a:expr, $b:expr, $c:expr) => { #[kani::proof] fn $n() { check_triple($a, $b, $c); } }; }
     //@GENERATED-OV@
